@@ -31,11 +31,13 @@ RECURSIVE RefPre(_, _), RefPreAt(_, _), InhPre(_, _, _)
 NoSuch(p, name) == p = 0 \/ MemberDecl(p, name).kind = "none"
 RefPre(k, name) == LET p == ProviderOf(k, name) IN IF NoSuch(p, name) THEN Absent ELSE RefPreAt(p, name)
 \* ... of the definition of name in class k (k defines name)
+\* (the reference lists are duplicate-free: a contract that reaches a class along several paths of a diamond is one
+\*  contract - listed, and evaluated, once)
 InhPre(bases, name, acc) ==
   IF bases = <<>> THEN acc
   ELSE LET r == RefPre(Head(bases), name) IN
        InhPre(Tail(bases), name,
-              [has |-> acc.has \/ r.kind # "absent", free |-> acc.free \/ r.kind = "true", groups |-> acc.groups \o r.groups])
+              [has |-> acc.has \/ r.kind # "absent", free |-> acc.free \/ r.kind = "true", groups |-> Dedup(acc.groups \o r.groups)])
 RefPreAt(k, name) ==
   LET own == OwnPre(k, name)
       inh == IF IsCtor(name) THEN [has |-> FALSE, free |-> FALSE, groups |-> <<>>]
@@ -46,12 +48,12 @@ RefPreAt(k, name) ==
 
 RECURSIVE RefPost(_, _), RefPostAt(_, _), InhPost(_, _)
 RefPost(k, name) == LET p == ProviderOf(k, name) IN IF NoSuch(p, name) THEN <<>> ELSE RefPostAt(p, name)
-InhPost(bases, name) == IF bases = <<>> THEN <<>> ELSE RefPost(Head(bases), name) \o InhPost(Tail(bases), name)
+InhPost(bases, name) == IF bases = <<>> THEN <<>> ELSE Dedup(RefPost(Head(bases), name) \o InhPost(Tail(bases), name))
 RefPostAt(k, name) == (IF IsCtor(name) THEN <<>> ELSE InhPost(Stmt(k).bases, name)) \o OwnPost(k, name)
 
 RECURSIVE RefSnap(_, _), RefSnapAt(_, _), InhSnap(_, _)
 RefSnap(k, name) == LET p == ProviderOf(k, name) IN IF NoSuch(p, name) THEN <<>> ELSE RefSnapAt(p, name)
-InhSnap(bases, name) == IF bases = <<>> THEN <<>> ELSE RefSnap(Head(bases), name) \o InhSnap(Tail(bases), name)
+InhSnap(bases, name) == IF bases = <<>> THEN <<>> ELSE Dedup(RefSnap(Head(bases), name) \o InhSnap(Tail(bases), name))
 RefSnapAt(k, name) == (IF IsCtor(name) THEN <<>> ELSE InhSnap(Stmt(k).bases, name)) \o OwnSnap(k, name)
 
 RECURSIVE RefInv(_, _), InhInv(_, _)
@@ -61,7 +63,7 @@ OwnInv(k, sel) == LET ds == Stmt(k).invs IN
                  ELSE (IF sel = "inv" \/ (sel = "oncall" /\ CON(ds[i].c).on \in {"CALL", "ALL"})
                            \/ (sel = "onset" /\ CON(ds[i].c).on \in {"SETATTR", "ALL"}) THEN <<ds[i].c>> ELSE <<>>) \o Pick(i + 1)
   IN Pick(1)
-InhInv(bases, sel) == IF bases = <<>> THEN <<>> ELSE RefInv(Head(bases), sel) \o InhInv(Tail(bases), sel)
+InhInv(bases, sel) == IF bases = <<>> THEN <<>> ELSE Dedup(RefInv(Head(bases), sel) \o InhInv(Tail(bases), sel))
 \* A class created through the metaclass accumulates the invariants visible on each of its bases.  A PLAIN class (no
 \* metaclass; the documentation leaves inheritance undefined there, the families keep to single inheritance and do not
 \* decorate a plain subclass of a decorated plain class) shows its own list if it was decorated, else what plain
